@@ -236,6 +236,228 @@ pub fn render(lay: Layout, t: &Tree) -> String {
     s
 }
 
+// ---- written forms of one tree (appendix A.6 / `Doc` of Props/C19b) -------------------------------
+//
+// `render` writes every section on one line with single spaces.  The grammar accepts much more,
+// and "parsing is a function of the text alone" must hold for all of it: arguments separated by
+// one or more spaces, tabs or NEWLINES inside the brackets (an argument list wrapped over several
+// lines, with or without indentation of the continuation lines), type tags in any letter case,
+// blank lines after a line, a missing final line end, `[Template …]` lines at the top level,
+// the sections of a machine in any order, several `[Networks]` blocks, `[Machines]` before
+// `[Networks]`; and a file saved with CRLF has CR LF at EVERY line break -- also those inside a
+// section's brackets and inside quoted values.
+
+/// how one tree is written; every decision is drawn from `seed`, independent of the layout, so
+/// the three layouts of one form differ in nothing but indentation unit and line ends
+#[derive(Clone, Copy, Debug)]
+pub struct Form {
+    seed: u64,
+    /// per argument, in percent: the separator before it contains a line break
+    wrap: u64,
+    /// per argument, in percent: the separator is longer than one character
+    multi: u64,
+    /// per line, in percent: blank line(s) after it
+    blank: u64,
+    /// 0 = tags as in `render`, 1 = lower case, 2 = upper case, 3 = letter by letter
+    case: u8,
+    /// sections of a machine / blocks of the file in another order, `[Template]` lines
+    reorder: bool,
+    /// last line without its line end
+    no_final_newline: bool,
+}
+
+/// CRLF flavours of a written form: `Lines` = CR LF only where a line of the description ends
+/// (what `render` does), `Whole` = every line break of the file, also inside brackets and values
+#[derive(Clone, Copy, PartialEq, Debug)]
+pub enum CrMode {
+    Lines,
+    Whole,
+}
+
+impl Form {
+    fn draw(rng: &mut Rng, style: u64) -> Form {
+        let seed = rng.next();
+        let f = Form { seed, wrap: 0, multi: 0, blank: 0, case: 0, reorder: false, no_final_newline: false };
+        match style % 6 {
+            // every argument on a line of its own
+            0 => Form { wrap: 100, ..f },
+            // some arguments wrapped, some separators longer
+            1 => Form { wrap: 35, multi: 30, ..f },
+            // one-line sections, blank lines, tag case
+            2 => Form { blank: 30, case: 1 + (seed % 3) as u8, ..f },
+            // long separators of blanks and tabs only
+            3 => Form { multi: 100, case: (seed % 4) as u8, ..f },
+            // other block / section order
+            4 => Form { wrap: 20, multi: 20, blank: 10, reorder: true, ..f },
+            // everything
+            _ => Form { wrap: 50, multi: 50, blank: 20, case: 3, reorder: true, no_final_newline: seed % 2 == 0, ..f },
+        }
+    }
+}
+
+struct FormWriter {
+    rng: Rng,
+    f: Form,
+    lay: Layout,
+    out: String,
+}
+
+impl FormWriter {
+    fn unit(&self) -> &'static str {
+        if self.lay == Layout::Spaces { "    " } else { "\t" }
+    }
+    fn tag(&mut self, dt: &str) -> String {
+        match self.f.case {
+            0 => dt.to_string(),
+            1 => dt.to_ascii_lowercase(),
+            2 => dt.to_ascii_uppercase(),
+            _ => dt.chars().map(|c| if self.rng.chance(1, 2) { c.to_ascii_uppercase() } else { c.to_ascii_lowercase() }).collect(),
+        }
+    }
+    /// one or more of space / tab / newline; a line break may be followed by the indentation of
+    /// a continuation line.  The random draws do not depend on the layout.
+    fn separator(&mut self, depth: usize) -> String {
+        let wrapped = self.rng.below(100) < self.f.wrap;
+        let multi = self.rng.below(100) < self.f.multi;
+        let shape = self.rng.below(6);
+        let extra = self.rng.below(3);
+        let mut s = String::new();
+        if wrapped {
+            if multi && shape % 2 == 0 {
+                s.push(' ');
+            }
+            s.push('\n');
+            match shape {
+                0 | 1 | 2 => {
+                    for _ in 0..depth + 1 {
+                        s.push_str(self.unit());
+                    }
+                }
+                3 => s.push_str(self.unit()),
+                4 => s.push(' '),
+                _ => {}
+            }
+            if multi && extra == 2 {
+                s.push('\n');
+            }
+        } else if multi {
+            s.push_str(["  ", "\t", " \t", "\t ", "   ", "\t\t"][shape as usize]);
+        } else {
+            s.push(' ');
+        }
+        s
+    }
+    fn line(&mut self, depth: usize, dt: &str, opts: &Opts) {
+        for _ in 0..depth {
+            let u = self.unit();
+            self.out.push_str(u);
+        }
+        self.out.push('[');
+        let t = self.tag(dt);
+        self.out.push_str(&t);
+        for (k, v) in opts {
+            let sep = self.separator(depth);
+            self.out.push_str(&sep);
+            self.out.push_str(k);
+            self.out.push_str("='");
+            self.out.push_str(v);
+            self.out.push('\'');
+        }
+        self.out.push(']');
+        self.out.push('\n');
+        if self.rng.below(100) < self.f.blank {
+            for _ in 0..self.rng.range(1, 2) {
+                self.out.push('\n');
+            }
+        }
+    }
+}
+
+/// the written form `f` of `t` in layout `lay` (for `Layout::Crlf`: line breaks per `cr`)
+pub fn render_form(f: Form, lay: Layout, cr: CrMode, t: &Tree) -> String {
+    let mut w = FormWriter { rng: Rng::new(f.seed), f, lay, out: String::new() };
+    // blocks: the networks in one or two `[Networks]` blocks, the machines in one `[Machines]`
+    // block, before or after them; `[Template]` lines in between (ignored at the top level)
+    let split = if f.reorder && t.nets.len() >= 2 { 1 + w.rng.below(t.nets.len() as u64 - 1) as usize } else { t.nets.len() };
+    let machines_first = f.reorder && w.rng.chance(1, 2);
+    let template = f.reorder && w.rng.chance(1, 2);
+    let mut blocks: Vec<u8> = vec![0];
+    if split < t.nets.len() {
+        blocks.push(1);
+    }
+    if machines_first {
+        blocks.insert(0, 2);
+    } else if f.reorder && blocks.len() == 2 && w.rng.chance(1, 2) {
+        blocks.insert(1, 2);
+    } else {
+        blocks.push(2);
+    }
+    let none: Opts = vec![];
+    for (bi, b) in blocks.iter().enumerate() {
+        if template && bi == 1 {
+            w.line(0, "Template", &vec![("name".to_string(), "t".to_string())]);
+        }
+        match b {
+            0 | 1 => {
+                w.line(0, "Networks", &none);
+                let part = if *b == 0 { &t.nets[..split] } else { &t.nets[split..] };
+                for n in part {
+                    w.line(1, "Network", &n.opts);
+                    for ip in &n.ips {
+                        w.line(2, &ip.dt, &ip.opts);
+                    }
+                }
+            }
+            _ => {
+                w.line(0, "Machines", &none);
+                for m in &t.machs {
+                    w.line(1, "Machine", &m.opts);
+                    let mut secs = vec![("Networks", &m.nets), ("Protocols", &m.prots), ("Applications", &m.apps)];
+                    if f.reorder {
+                        for i in (1..secs.len()).rev() {
+                            let j = w.rng.below(i as u64 + 1) as usize;
+                            secs.swap(i, j);
+                        }
+                    }
+                    for (name, ls) in secs {
+                        w.line(2, name, &none);
+                        for l in ls {
+                            w.line(3, &l.dt, &l.opts);
+                        }
+                    }
+                }
+            }
+        }
+    }
+    let mut s = w.out;
+    if f.no_final_newline {
+        while s.ends_with('\n') {
+            s.pop();
+        }
+    }
+    if lay == Layout::Crlf {
+        s = match cr {
+            CrMode::Whole => s.replace('\n', "\r\n"),
+            CrMode::Lines => {
+                // CR LF only at the line breaks outside the brackets (ends of the description's lines, blank lines)
+                let mut o = String::with_capacity(s.len() + 64);
+                let mut in_br = false;
+                for c in s.chars() {
+                    match c {
+                        '[' => in_br = true,
+                        ']' => in_br = false,
+                        '\n' if !in_br => o.push('\r'),
+                        _ => {}
+                    }
+                    o.push(c);
+                }
+                o
+            }
+        };
+    }
+    s
+}
+
 // ------------------------------------------------------------------------------------------
 // the real parser: outcome classes
 // ------------------------------------------------------------------------------------------
@@ -1056,6 +1278,11 @@ struct Cx<'a> {
     expect: Option<Tree>,
     /// `Some(label)`: the next `parse` must be rejected
     must_reject: Option<String>,
+    /// written forms per tree case (`--forms`)
+    forms: u64,
+    /// outcome of the first `parse` since the last `render` / `expect-none`: every text parsed
+    /// while `expect` is set is a written form of ONE tree, so all of them must parse alike
+    group_first: Option<(String, String)>,
     no_panic_oracle: bool,
 }
 
@@ -1102,7 +1329,27 @@ fn exec_parse(cx: &mut Cx, op: &str, hexs: &str) {
                 (0, c) => format!("roundtrip rejected {}", c),
                 (a, _) => format!("value-altered {}", ["", "cr", "four-spaces", "four-spaces+cr"][a as usize]),
             };
-            cx.fail(&format!("a well-formed description does not parse back to itself: expected `{}` got `{}`", trunc(&want, 300), trunc(&o.line(), 300)), &ident);
+            cx.fail(&format!("a well-formed description does not parse back to itself: expected `{}` got `{}`; text {:?}", trunc(&want, 300), trunc(&o.line(), 300), trunc(&text, 400)), &ident);
+        }
+        // parsing is a function of the description, not of how it is laid out: all written
+        // forms of one tree (layouts, wrapped argument lists, CRLF, blank lines …) parse alike
+        // (an error's line number is a property of the layout -- blank lines, wrapped arguments --
+        // not of the description: only the kind of error is compared)
+        let key = match &o {
+            Outcome::Err(k, _, _) => format!("err {}", k),
+            other => other.line(),
+        };
+        match &cx.group_first {
+            None => cx.group_first = Some((key, text.clone())),
+            Some((first, first_text)) => {
+                if *first != key {
+                    let (first, first_text) = (first.clone(), first_text.clone());
+                    cx.fail(
+                        &format!("two written forms of one description parse differently: `{}` for {:?} but `{}` for {:?}", trunc(&first, 200), trunc(&first_text, 300), trunc(&o.line(), 200), trunc(&text, 300)),
+                        &format!("written-forms-disagree {}-vs-{}", first.split(' ').next().unwrap_or(""), o.class()),
+                    );
+                }
+            }
         }
     }
     if let Some(label) = cx.must_reject.take() {
@@ -1133,15 +1380,21 @@ fn exec_line(cx: &mut Cx, l: &str) {
             let (Some(lay), Some(t)) = (Layout::parse(w[1]), Tree::from_tokens(&w[2..])) else { return cx.out.line(l, "bad-op") };
             let text = render(lay, &t);
             cx.out.line(l, &format!("text {}", hx(&text)));
+            // further renderings of the same tree join the group of written forms
+            if cx.expect.as_ref() != Some(&t) {
+                cx.group_first = None;
+            }
             cx.expect = Some(t);
         }
         Some("expect-reject") if w.len() == 2 => {
             cx.must_reject = Some(w[1].to_string());
             cx.expect = None;
+            cx.group_first = None;
             cx.out.line(l, "-");
         }
         Some("expect-none") => {
             cx.expect = None;
+            cx.group_first = None;
             cx.out.line(l, "-");
         }
         Some("parse") if w.len() == 2 => exec_parse(cx, l, w[1]),
@@ -1173,7 +1426,7 @@ fn lowercase_assumption(out: &mut Out) {
     }
 }
 
-const RULE_PARSE: &str = "trees: 0..4 networks (unique ids, 1..4 IP lines) and 0..4 machines (1..3 lines per section), 0..4 arguments per line with keys/values drawn from the NDL vocabulary and from an exotic palette (spaces, quotes, \\' escapes, =, [, tabs, newlines, non-ASCII incl. U+212A and chars whose low byte is a separator); each rendered as tabs / 4 spaces / CRLF and parsed by the real core_parser; plus structural-error mutants that must be rejected and free text mutants; non-trivial = at least one network and one machine; distinct = hash of the op lines";
+const RULE_PARSE: &str = "trees: 0..4 networks (unique ids, 1..4 IP lines) and 0..4 machines (1..3 lines per section), 0..4 arguments per line with keys/values drawn from the NDL vocabulary and from an exotic palette (spaces, quotes, \\' escapes, =, [, tabs, newlines, non-ASCII incl. U+212A and chars whose low byte is a separator); each rendered as tabs / 4 spaces / CRLF and parsed by the real core_parser, then written in 3 other forms the grammar accepts (argument lists wrapped over several lines with or without continuation indent, separators of several blanks / tabs / line breaks, tag letter case, blank lines, no final line end, [Template] lines, machine sections and blocks in other orders, two [Networks] blocks), each form in tabs / 4 spaces / CRLF at the description's line ends / CRLF at every line break of the file (also inside brackets and quoted values): every form must parse to the tree and all forms of one tree must parse alike; plus structural-error mutants that must be rejected and free text mutants; non-trivial = at least one network and one machine; distinct = hash of the op lines";
 
 fn case_tree(cx: &mut Cx, rng: &mut Rng, altered: bool) {
     let mut t = gen_tree(rng, true);
@@ -1198,6 +1451,42 @@ fn case_tree(cx: &mut Cx, rng: &mut Rng, altered: bool) {
         exec_line(cx, &spec);
         let text = render(lay, &t);
         exec_line(cx, &format!("parse {}", hx(&text)));
+    }
+    // other written forms of the same tree, each in the three layouts (CRLF: at the ends of the
+    // description's lines only, and at every line break of the file); they follow the `render`
+    // lines above, so the tree is their expectation and they must all parse alike
+    let forms: u64 = cx.forms;
+    let first_style = rng.below(6);
+    for k in 0..forms {
+        let f = Form::draw(rng, first_style + k);
+        for (lay, cr) in [(Layout::Tabs, CrMode::Lines), (Layout::Spaces, CrMode::Lines), (Layout::Crlf, CrMode::Whole), (Layout::Crlf, CrMode::Lines)] {
+            let text = render_form(f, lay, cr, &t);
+            cx.out.count(&format!("form.{}{}", lay.name(), if lay == Layout::Crlf && cr == CrMode::Whole { "-everywhere" } else { "" }));
+            let mut in_br = false;
+            let mut in_q = false;
+            let (mut wrapped, mut nl_in_value, mut prev) = (false, false, ' ');
+            for c in text.chars() {
+                match c {
+                    '[' if !in_q => in_br = true,
+                    ']' => {
+                        in_br = false;
+                        in_q = false;
+                    }
+                    '\'' if in_br && prev != '\\' => in_q = !in_q,
+                    '\n' if in_br && !in_q => wrapped = true,
+                    '\n' if in_q => nl_in_value = true,
+                    _ => {}
+                }
+                prev = c;
+            }
+            if wrapped {
+                cx.out.count(&format!("form.{}.line-break-inside-brackets", lay.name()));
+            }
+            if nl_in_value {
+                cx.out.count(&format!("form.{}.line-break-inside-value", lay.name()));
+            }
+            exec_line(cx, &format!("parse {}", hx(&text)));
+        }
     }
     exec_line(cx, "expect-none");
     // the lexer alone on some of its lines, with trailing newlines and an arbitrary line number
@@ -1315,7 +1604,7 @@ fn fixed_texts() -> Vec<(&'static str, String)> {
 fn run_parse_like(args: &Args, c14: bool) {
     let mut out = Out::new(&args.out);
     let files = Files::new(&args.out);
-    let mut cx = Cx { seen: HashMap::new(), out: &mut out, files, expect: None, must_reject: None, no_panic_oracle: true };
+    let mut cx = Cx { seen: HashMap::new(), out: &mut out, files, expect: None, must_reject: None, forms: args.extra.get("forms").and_then(|v| v.parse().ok()).unwrap_or(3), group_first: None, no_panic_oracle: true };
     if let Some(rp) = &args.replay {
         cx.out.begin_case(0);
         cx.out.mark_nontrivial();
@@ -1377,6 +1666,7 @@ fn run_parse_like(args: &Args, c14: bool) {
         }
         cx.expect = None;
         cx.must_reject = None;
+        cx.group_first = None;
         cx.out.end_case();
         c += 1;
     }
